@@ -56,6 +56,8 @@ type Input struct {
 	// Lib (stream.Merge): the input is one of the library's own streams instead of a recording double:
 	// stream.Empty() when it has no values, stream.FromIterator(iterator.Slice(..)) otherwise (no gaps)
 	Lib bool `json:"lib,omitempty"`
+	// Wrap (stream.Merge): the input is handed over as a struct value with func fields (not comparable)
+	Wrap bool `json:"wrap,omitempty"`
 }
 
 type Plan struct {
@@ -93,6 +95,7 @@ func genInput(t *rapid.T, streamKind bool) Input {
 		case 2, 3:
 			in.Lib = true
 		}
+		in.Wrap = rapid.IntRange(0, 3).Draw(t, "wrap") == 0
 	}
 	return in
 }
@@ -102,7 +105,7 @@ func genPlan(kind string) func(t *rapid.T) Plan {
 		p := Plan{CloseAfter: -1}
 		arity := rapid.SampledFrom(arities).Draw(t, "arity")
 		if kind == "stream-merge" {
-			arity = rapid.IntRange(0, 5).Draw(t, "sarity")
+			arity = rapid.SampledFrom([]int{0, 1, 2, 3, 4, 5, 2, 3, 65, 130}).Draw(t, "sarity") // (wide merges too)
 		}
 		if kind == "replicate" {
 			arity = 1
@@ -314,6 +317,16 @@ func runReplicate(p Plan) (vk.Outcome, error) {
 
 // ---------------------------------------------------------------- stream.Merge
 
+// funcStream is a stream implemented as a struct VALUE with func fields: a type that == cannot compare and that
+// cannot be a map key. Streams are interface values; nothing says they are comparable.
+type funcStream[T any] struct {
+	next  func(ctx context.Context) (T, error)
+	close func()
+}
+
+func (f funcStream[T]) Next(ctx context.Context) (T, error) { return f.next(ctx) }
+func (f funcStream[T]) Close()                              { f.close() }
+
 func runStreamMerge(p Plan) (vk.Outcome, error) {
 	var out vk.Outcome
 	err := bubble(func() error {
@@ -350,6 +363,9 @@ func runStreamMerge(p Plan) (vk.Outcome, error) {
 				total += in.ErrAt
 			}
 			recs[i], ss[i] = r, r
+			if in.Wrap {
+				ss[i] = funcStream[int]{next: r.Next, close: r.Close}
+			}
 			if in.Lib && in.ErrAt < 0 && !in.Blocks {
 				recs[i] = nil
 				if len(items) == 0 {
@@ -745,29 +761,53 @@ func TestChansMergeSharedInput(t *testing.T) {
 // wide, so: many rounds, several idle siblings.
 
 type ErrStormPlan struct {
-	Idle   int `json:"idle"`  // inputs that block until their context ends
-	After  int `json:"after"` // the failing input yields this many values first
-	Rounds int `json:"rounds"`
+	Failing int `json:"failing,omitempty"` // inputs that fail at the same instant, each with an error of another concrete type (0 = 1)
+	Idle    int `json:"idle"`              // inputs that block until their context ends
+	After   int `json:"after"`             // the failing input yields this many values first
+	Rounds  int `json:"rounds"`
 }
 
+// stormErr is an error of a non-pointer concrete type.
+type stormErr struct{ inner error }
+
+func (e stormErr) Error() string { return "storm: " + e.inner.Error() }
+func (e stormErr) Unwrap() error { return e.inner }
+
 func genErrStorm(t *rapid.T) ErrStormPlan {
-	return ErrStormPlan{Idle: rapid.IntRange(1, 6).Draw(t, "idle"), After: rapid.IntRange(0, 2).Draw(t, "after"), Rounds: rapid.IntRange(100, 500).Draw(t, "rounds")}
+	return ErrStormPlan{Failing: rapid.SampledFrom([]int{1, 1, 2, 3, 8}).Draw(t, "failing"), Idle: rapid.IntRange(1, 6).Draw(t, "idle"), After: rapid.IntRange(0, 2).Draw(t, "after"), Rounds: rapid.IntRange(100, 500).Draw(t, "rounds")}
 }
 
 func runErrStorm(p ErrStormPlan) (vk.Outcome, error) {
 	var out vk.Outcome
 	err := bubble(func() error {
 		for round := 0; round < p.Rounds; round++ {
-			E := sk.NewSentinel("E")
+			var Es []error
 			var ss []stream.Stream[int]
 			var recs []*sk.RecStream[int]
-			items := make([]int, p.After)
-			for k := range items {
-				items[k] = val(0, k)
+			nf := p.Failing
+			if nf < 1 {
+				nf = 1
 			}
-			f := sk.NewRecStream("failing", items)
-			f.FinalAt, f.Final = p.After, E
-			recs, ss = append(recs, f), append(ss, stream.Stream[int](f))
+			for fi := 0; fi < nf; fi++ {
+				var E error = sk.NewSentinel(fmt.Sprintf("E%d", fi))
+				switch fi % 3 { // errors of different concrete types
+				case 1:
+					E = fmt.Errorf("input %d failed: %w", fi, E)
+				case 2:
+					E = stormErr{E}
+				}
+				Es = append(Es, E)
+				var items []int
+				if fi == 0 {
+					items = make([]int, p.After)
+					for k := range items {
+						items[k] = val(0, k)
+					}
+				}
+				f := sk.NewRecStream(fmt.Sprintf("failing%d", fi), items)
+				f.FinalAt, f.Final = len(items), E
+				recs, ss = append(recs, f), append(ss, stream.Stream[int](f))
+			}
 			for i := 0; i < p.Idle; i++ {
 				r := sk.NewRecStream[int](fmt.Sprintf("idle%d", i), nil)
 				r.BlockAt = 0
@@ -786,8 +826,12 @@ func runErrStorm(p ErrStormPlan) (vk.Outcome, error) {
 				}
 			}
 			m.Close()
-			if !errors.Is(final, E) {
-				return vk.Violf("wrong-error", "round %d: one input failed with E while %d others were idle in a context-aware Next; the merged stream reported %v", round, p.Idle, final)
+			okErr := false
+			for _, E := range Es {
+				okErr = okErr || errors.Is(final, E)
+			}
+			if !okErr {
+				return vk.Violf("wrong-error", "round %d: %d input(s) failed while %d others were idle in a context-aware Next; the merged stream reported %v, which none of them returned", round, nf, p.Idle, final)
 			}
 			for _, r := range recs {
 				if err := r.Ownership(); err != nil {
@@ -903,4 +947,68 @@ func runRepIface(p RepIfacePlan) (vk.Outcome, error) {
 func TestReplicateInterfaceValues(t *testing.T) {
 	theT = t
 	vk.Run(t, suite, "replicate-iface", 400, genRepIface, runRepIface)
+}
+
+// ---------------------------------------------------------------- stream.Merge over hundreds of long-lived inputs
+//
+// Every input has one value ready and then stays open and idle (a subscription). All of those values
+// have to come out while the inputs are still open - the merge may not serve its inputs in shifts.
+
+type WidePlan struct {
+	N int `json:"n"`
+}
+
+func genWide(t *rapid.T) WidePlan {
+	return WidePlan{N: rapid.SampledFrom([]int{65, 130, 257, 300, 1000}).Draw(t, "n")}
+}
+
+func runWide(p WidePlan) (vk.Outcome, error) {
+	var out vk.Outcome
+	err := bubble(func() error {
+		recs := make([]*sk.RecStream[int], p.N)
+		ss := make([]stream.Stream[int], p.N)
+		for i := range recs {
+			r := sk.NewRecStream(fmt.Sprintf("in%d", i), []int{i})
+			r.BlockAt = 1 // after its one value the input blocks until its context ends
+			recs[i], ss[i] = r, r
+		}
+		m := stream.Merge(ss...)
+		seen := make([]bool, p.N)
+		for got := 0; got < p.N; got++ {
+			var v int
+			var err error
+			done := make(chan struct{})
+			go func() { v, err = m.Next(context.Background()); close(done) }()
+			synctest.Wait()
+			select {
+			case <-done:
+			default:
+				m.Close()
+				<-done
+				return vk.Violf("lost-value", "%d inputs are open and each has handed over (or holds) one value; after %d of them came out the merged stream has nothing to deliver at quiescence", p.N, got)
+			}
+			if err != nil {
+				return vk.Violf("spurious-error", "Next #%d: %v", got, err)
+			}
+			if v < 0 || v >= p.N || seen[v] {
+				return vk.Violf("invented-value", "Next #%d returned %d (duplicate or unknown)", got, v)
+			}
+			seen[v] = true
+		}
+		m.Close()
+		for _, r := range recs {
+			if err := r.Ownership(); err != nil {
+				return vk.Violf("ownership", "after Close of the merged stream: %v", err)
+			}
+		}
+		return nil
+	})
+	out.NonTrivial = true
+	out.Label(fmt.Sprintf("wide/n=%d", p.N))
+	return out, err
+}
+
+func TestStreamMergeWide(t *testing.T) {
+	theT = t
+	vk.Run(t, suite, "stream-merge-wide", 10, genWide, runWide)
 }
